@@ -300,7 +300,7 @@ func c12Judge(text string, env *numgen.Env, cc *command.Compiler) (out c12Outcom
 
 func TestC12(t *testing.T) {
 	c := evid.New("C12")
-	c.Rule = "generators: (0) revisit: a typed program extended by 2-4 statements that save (all / an amount), credit and debit one and the same account and asset; (1) typed programs loosened at the AST level (any expression in any position, portions that do not add up, unbounded sources anywhere, save/print/fail, extra or duplicated variables with meta/balance origins) with loosened environments (missing / extraneous / malformed bindings and metadata, negative and huge balances); (2) token-level mutation of program text (delete, duplicate, swap, replace by hostile tokens incl. CR, NUL, multi-byte runes, huge numbers, comment markers; truncate); (3) splices of two programs. Oracle: no panic in compile / SetVarsFromJSON / ResolveResources / ResolveBalances / Run nor in rendering the returned error; termination within a watchdog; A-B-A: the same input gives the same outcome after an unrelated script ran through the shared compilation cache, and the unrelated script is unaffected; a quarter of the inputs are also submitted to a long-lived Commander (model store with the history left by the earlier inputs): no panic, and a plain transaction still commits afterwards. Non-trivial = the text passes the parser and compiler (the VM stages are reached); distinct by script text + environment."
+	c.Rule = "generators: (0) revisit: a typed program extended by 2-4 statements that save (all / an amount), credit and debit one and the same account and asset; (1) typed programs loosened at the AST level (any expression in any position, portions that do not add up, unbounded sources anywhere, save/print/fail, extra or duplicated variables with meta/balance origins) with loosened environments (missing / extraneous / malformed bindings and metadata, negative and huge balances); (2) token-level mutation of program text (delete, duplicate, swap, replace by hostile tokens incl. CR, NUL, multi-byte runes, huge numbers, comment markers; truncate); (3) splices of two programs. Oracle: no panic in compile / SetVarsFromJSON / ResolveResources / ResolveBalances / Run nor in rendering the returned error; termination within a watchdog; A-B-A: the same input gives the same outcome after an unrelated script ran through the shared compilation cache, and the unrelated script is unaffected; a quarter of the inputs are also submitted to a long-lived Commander (model store with the history left by the earlier inputs; a third of these runs carry an idempotency key drawn from a pool mixing used and fresh keys, some as previews, and are surrounded by keyed metadata writes and reverts drawing from the same pool, so keys meet log entries of every kind): no panic, and a plain transaction still commits afterwards; 4% of the cases are concurrent histories on the real engine under the simulator's scheduler (all kinds of writes, shared keys and references, previews, one restart): no request may panic. Non-trivial = the text passes the parser and compiler (the VM stages are reached); distinct by script text + environment."
 	c.Assumptions = []string{"a watchdog expiry (20 s, re-run alone with 60 s) is a hang only if it repeats; a single expiry is counted as discarded"}
 	cfg := numgen.GenCfg{MaxDepth: 2, MaxStmts: 3}
 	cc := command.NewCompiler(64)
@@ -309,7 +309,32 @@ func TestC12(t *testing.T) {
 	defer stop()
 	ectx := logging.ContextWithLogger(context.Background(), nopLog{})
 	engineRuns := 0
+	hcfg := enginesim.DefaultConfig()
+	hcfg.Crashes = 1
+	hcfg.DryRunPct = 10
 	runProp(t, c, func(rt *rapid.T) {
+		if rapid.IntRange(0, 24).Draw(rt, "engineHistory") == 0 {
+			// a concurrent history on the real engine (scheduled by the simulator) in which requests of
+			// different kinds may share idempotency keys and references, across restarts: no request may panic
+			plan := enginesim.GenPlan(rt, hcfg)
+			r := runEngine(t, rt, c, plan)
+			if r == nil {
+				return
+			}
+			labels, _ := concurrencyLabels(r)
+			c.Case("history:"+enginesim.TraceKey(r), true, append(labels, "mode:engine-history"), sampleOf(r))
+			for i, resp := range r.Responses {
+				if resp != nil && resp.ErrClass == "PANIC" {
+					sig := "C12/engine-panic/" + panicClass(resp.ErrText)
+					if !c.IsKnown(sig) {
+						rt.Logf("history: %s", mustJSON(enginesim.RenderResult(r)))
+						violation(rt, c, sig, "request %d of a generated history panicked inside the engine: %s", i, clip(resp.ErrText))
+					}
+					return
+				}
+			}
+			return
+		}
 		cs := numgen.GenTyped(rt, cfg)
 		mode := rapid.SampledFrom([]string{"typed", "loose-ast", "loose-ast", "loose-ast", "loose-env", "token-mut", "token-mut", "splice", "deep", "revisit"}).Draw(rt, "mode")
 		text := cs.Text
@@ -394,14 +419,58 @@ func TestC12(t *testing.T) {
 				vars[k] = v
 			}
 			var eerr error
-			pn := safely(func() {
-				_, eerr = commander.CreateTransaction(ectx, command.Parameters{}, ledger.RunScript{Script: ledger.Script{Plain: text, Vars: vars}, Metadata: metadata.Metadata(cs.Env.ReqMeta)})
-			})
+			// the ledger state includes the idempotency keys of earlier writes of every kind: a third of the
+			// engine runs carry a key from a pool that mixes used and fresh ones, and are surrounded by
+			// keyed metadata writes and reverts drawing from the same pool
+			params := command.Parameters{}
+			keyPool := 4 + engineRuns/6
+			drawKey := func(label string) string {
+				return fmt.Sprintf("k%d", rapid.IntRange(0, keyPool).Draw(rt, label))
+			}
+			if rapid.IntRange(0, 2).Draw(rt, "engineKeyed") == 0 {
+				params.IdempotencyKey = drawKey("engineKey")
+				params.DryRun = rapid.IntRange(0, 5).Draw(rt, "enginePreview") == 0
+			}
+			otherWrite := func(label string) any {
+				kind := rapid.SampledFrom([]string{"none", "none", "save_meta_account", "save_meta_tx", "delete_meta_account", "delete_meta_tx", "revert"}).Draw(rt, label)
+				if kind == "none" {
+					return nil
+				}
+				p := command.Parameters{IdempotencyKey: drawKey(label + "Key")}
+				txid := big.NewInt(int64(rapid.IntRange(0, 3+engineRuns/4).Draw(rt, label+"Tx")))
+				return safely(func() {
+					var err error
+					switch kind {
+					case "save_meta_account":
+						err = commander.SaveMeta(ectx, p, ledger.MetaTargetTypeAccount, "a", metadata.Metadata{"k": "v"})
+					case "save_meta_tx":
+						err = commander.SaveMeta(ectx, p, ledger.MetaTargetTypeTransaction, txid, metadata.Metadata{"k": "v"})
+					case "delete_meta_account":
+						err = commander.DeleteMetadata(ectx, p, ledger.MetaTargetTypeAccount, "a", "k")
+					case "delete_meta_tx":
+						err = commander.DeleteMetadata(ectx, p, ledger.MetaTargetTypeTransaction, txid, "k")
+					case "revert":
+						_, err = commander.RevertTransaction(ectx, p, txid, rapid.Bool().Draw(rt, label+"Force"))
+					}
+					if err != nil {
+						_ = err.Error()
+					}
+				})
+			}
+			pn := otherWrite("engineBefore")
+			if pn == nil {
+				pn = safely(func() {
+					_, eerr = commander.CreateTransaction(ectx, params, ledger.RunScript{Script: ledger.Script{Plain: text, Vars: vars}, Metadata: metadata.Metadata(cs.Env.ReqMeta)})
+				})
+			}
 			if pn == nil && eerr != nil {
 				pn = safely(func() { _ = eerr.Error() })
 			}
+			if pn == nil {
+				pn = otherWrite("engineAfter")
+			}
 			if pn != nil {
-				sig, msg = "C12/engine-panic/"+panicClass(fmt.Sprint(pn)), fmt.Sprintf("Commander.CreateTransaction panicked: %v", pn)
+				sig, msg = "C12/engine-panic/"+panicClass(fmt.Sprint(pn)), fmt.Sprintf("a write on the long-lived Commander panicked: %v", pn)
 			} else {
 				var after error
 				pn2 := safely(func() {
